@@ -19,7 +19,7 @@ func (w *World) ensureInit(pkg *ssa.Package) {
 	w.pkgInitDone[pkg] = true
 	w.setupPackage(pkg)
 	initFn := pkg.Func("init")
-	if initFn == nil {
+	if initFn == nil || gSkipInit[pkg.Pkg.Path()] {
 		return
 	}
 	wasLog := w.logging
@@ -37,6 +37,10 @@ func (w *World) ensureInit(pkg *ssa.Package) {
 	}
 	w.callSSA(nil, token.NoPos, initFn, nil, nil)
 }
+
+// gSkipInit: packages whose initialiser is not executed (check json "skip_init"): their package-level variables keep
+// their zero values. For packages whose init only registers handlers/flags that the harnesses do not depend on.
+var gSkipInit = map[string]bool{}
 
 // isPackageInit reports whether fn is the synthetic initialiser of a package.
 func isPackageInit(fn *ssa.Function) bool {
